@@ -114,7 +114,9 @@ theorem findMultiScan_sat {F : Type} (o : FOps F) {rd : Reader} (hrd : Total rd)
     Sat NoFault (fun _ => True) (findMultiScan o rd maxI maxJ tryHarder) := by
   unfold findMultiScan
   simp only []
-  have hsk : 3 ≤ (if Int.tdiv (3 * maxI) (4 * 97) < 3 ∨ tryHarder = true then 3 else Int.tdiv (3 * maxI) (4 * 97)) := by
+  have hsk : 3 ≤ rowStep maxI tryHarder := by
+    unfold rowStep
+    simp only []
     split <;> omega
   refine sat_bind_true (mRowsLoop_sat o hrd maxI maxJ _ (by omega) _ _ _ (by omega)) ?_
   intro fs
